@@ -5,7 +5,8 @@
   (1) `PyRt.sliceRevFrom l (i - 1)` is `(l.take i).reverse`; (2) `pyGet l (-1)` is the head of `l.reverse`;
   (3) the backwards walk: a `PyRt.forIn` whose body prepends Gap rows and returns at the first Fragment row is
       `inputPredecessor.go` (the body is a parameter: only what one pass returns is asked);
-  (4) the two conversions between the model's `(Fragment, List Gap)` and the source's row objects.
+  (4) the two conversions between the model's `(Fragment, List Gap)` and the source's row objects;
+  (5) `gaps_before_leftover` spelled out for an arbitrary stored `(row, rows)` pair.
   Nothing here mentions a generated term.
 -/
 import AgpTpf.Model.Remap
@@ -57,9 +58,6 @@ theorem pyGet_neg_one {α : Type} (l : List α) (x : α) (r : List α) (h : l.re
 /-- what `input_predecessor` returns: the Fragment as a row object, the gaps as rows -/
 def predToRows (p : Fragment × List Gap) : Row × List Row := (Row.frag p.1, p.2.map Row.gap)
 
-/-- what `gaps_before_leftover` unpacks (`prev, gaps = pred`): `prev` is used as a Fragment -/
-def predToSrc (p : Fragment × List Gap) : Fragment × List Row := (p.1, p.2.map Row.gap)
-
 /-- a list of Gap rows read back as gaps (`none` if a Fragment row is among them) -/
 def gapsOfRows : List Row → Option (List Gap)
   | [] => some []
@@ -106,19 +104,6 @@ theorem predToRows_predOfRows (q : Row × List Row) (p : Fragment × List Gap) (
     simp only [predOfRows, Option.map_eq_some_iff] at h
     obtain ⟨gs, hgs, rfl⟩ := h
     simp [predToRows, map_of_gapsOfRows rs gs hgs]
-
-/-- the stored row pair as `gaps_before_leftover` uses it: `prev` must be a Fragment (`prev.name`, `prev.strand` …) -/
-def srcOfRows (q : Row × List Row) : Option (Fragment × List Row) :=
-  match q.1 with
-  | .frag f => some (f, q.2)
-  | .gap _ => none
-
-/-- what `input_predecessor` returns always has a Fragment first, and reads as the model pair with the gaps as rows -/
-theorem srcOfRows_predToRows (p : Fragment × List Gap) : srcOfRows (predToRows p) = some (predToSrc p) := rfl
-
-theorem bind_srcOfRows (pred : Option (Fragment × List Gap)) :
-    (pred.map predToRows).bind srcOfRows = pred.map predToSrc := by
-  cases pred <;> rfl
 
 /-! ### 3. the backwards walk -/
 
@@ -171,5 +156,41 @@ theorem forIn_walk_eq (body : Row → List Row → R (PyRt.Ctl (List Row) (Optio
 theorem dflt_eq (jg : Option Gap) :
     (jg.toList).map Row.gap = (match jg with | some g => [Row.gap g] | none => []) := by
   cases jg <;> rfl
+
+/-! ### 5. `gaps_before_leftover` for an arbitrary stored pair -/
+
+/-- `gaps_before_leftover(build_scffld, scffld)` spelled out for whatever `scffld.input_predecessor` holds: `prev` is a row object whose
+    `name` / `strand` / `start` / `end` are read only after `isinstance(last, Fragment)` succeeded — AttributeError if it is a Gap —
+    and `gaps` are returned as they are -/
+def gapsBeforeLeftoverRows (joinGap : Option Gap) (built : List Row) (pred : Option (Row × List Row)) : R (List Row) :=
+  if built.isEmpty then .ok []
+  else
+    match pred, built.reverse with
+    | some (prev, gaps), Row.frag last :: _ =>
+      match prev with
+      | Row.gap _ => .error .attribute
+      | Row.frag prev =>
+        if last.name = prev.name ∧ last.strand = prev.strand ∧
+           (if prev.strand = -1 then last.start else last.stop) = (if prev.strand = -1 then prev.start else prev.stop)
+        then .ok gaps else .ok (joinGap.toList.map Row.gap)
+    | _, _ => .ok (joinGap.toList.map Row.gap)
+
+/-- on what `input_predecessor` stores it is the model's `gapsBeforeLeftover` -/
+theorem gapsBeforeLeftoverRows_predToRows (joinGap : Option Gap) (built : List Row) (pred : Option (Fragment × List Gap)) :
+    gapsBeforeLeftoverRows joinGap built (pred.map predToRows) = .ok (gapsBeforeLeftover joinGap built pred) := by
+  unfold gapsBeforeLeftoverRows gapsBeforeLeftover
+  cases built.isEmpty with
+  | true => rfl
+  | false =>
+    cases pred with
+    | none => cases joinGap <;> rfl
+    | some p =>
+      cases built.reverse with
+      | nil => cases joinGap <;> rfl
+      | cons x r =>
+        cases x with
+        | gap g => cases joinGap <;> rfl
+        | frag last =>
+          cases joinGap <;> exact (apply_ite Except.ok _ _ _).symm
 
 end AgpTpf.ImpLeftover
